@@ -9,7 +9,7 @@ THEOREMS = ["GrpcProofs.C12." + t for t in (
     "handle_implies_legal", "handle_implies_all_content_types_valid_counterexample",
     "handler_runs_only_for_registered_method", "active_le_maxStreams", "excess_gets_refused_stream",
     "illegal_id_never_handled", "maxStreamID_monotone", "framer_reject_never_handled",
-    "accepted_id_recorded", "used_id_never_handled_later")]
+    "accepted_id_recorded", "used_id_never_handled_later", "handle_implies_timeout_grammar")]
 DESIGN_REF = "DESIGN.md section 8, C12"
 TECHNIQUE = ("Lean 4 theorems about a port of operateHeaders (checks in source order) composed with a model of the x/net/http2 "
              "header validation it sits on, plus an inductive invariant over all frame sequences; tie T2: real grpc.Server over "
@@ -44,8 +44,9 @@ RULE = ("cases = start (MaxConcurrentStreams 0..5, optional small MaxHeaderListS
         "base64, :authority/host multiplicities, connection, path variants, pseudo-header order/unknown/response pseudo, upper-case "
         "or illegal names, control bytes in values, filler fields up to truncation, END_STREAM) with ids next-odd / even / repeated / "
         "lower / 0 / jump, re-use of the id of a request that was just turned down (every rejection reason x same/lower id, directed + random), interleaved with handler completion, client RST_STREAM, DATA(END_STREAM) incl. after half-close, virtual "
-        "sleep past grpc-timeouts, arbitrary frames and raw bytes; binhdr: every string of length <= 4 over a 7-symbol alphabet + "
-        "random; a case is non-trivial if a handler ran in it; distinct = distinct op list")
+        "sleep past grpc-timeouts, arbitrary frames and raw bytes; malformed grpc-timeouts = signs, blanks, separators, base prefixes, "
+        "floats/exponents, non-ASCII digits, unit and length variants + single-byte damage of well-formed values; binhdr: base64 over every "
+        "string of length <= 4 (7 symbols), decodeTimeout over every string of length <= 4 (11 symbols: digits, signs, blank, _ . x, units) + random; a case is non-trivial if a handler ran in it; distinct = distinct op list")
 
 
 def hx(b):
@@ -65,7 +66,37 @@ def base_fields(i, path="/s/m"):
 
 GOOD_TIMEOUTS = ["100m", "1S", "5H", "99999999n", "250m", "2S", "30m"]
 ZERO_TIMEOUTS = ["0n", "0S", "00000000H"]
-BAD_TIMEOUTS = ["", "1", "m", "123456789S", "1x", "-1S", "1.5S", " 1S", "1S ", "S1", "0", "１S"]
+# everything strconv.ParseUint / ParseInt / Atoi / ParseFloat (and base-0 parsing) disagree on, plus length, unit and
+# byte-level variants: the wire grammar is 1*8DIGIT ( H / M / S / m / u / n ), nothing else
+BAD_TIMEOUTS = [
+    "", "1", "m", "S", "0", "123456789S", "000000000S", "1x", "S1",
+    # signs
+    "+5S", "-5S", "-1S", "+0n", "-0S", "+0000005S", "-0000005S", "++5S", "+-5S", "5+S", "5-S", "+S", "-S", "+12345678S",
+    # blanks
+    " 1S", "1S ", "1 S", " 5S ", "\t5S", "5\tS", "5S\t", "1 0S",
+    # digit separators / other bases
+    "1_0S", "_5S", "5_S", "1,000S", "0x5S", "0X5S", "0x1fS", "0b1S", "0o7S", "0_5S", "1fS",
+    # floats / exponents / specials
+    "1.5S", ".5S", "5.S", "1e3S", "1E3S", "infS", "NaNS", "1e-1S",
+    # non-ASCII digits and bytes
+    "１S", "٥S", "5\u00b5", "5\u00b5s", "\u00a05S",
+    # units
+    "5s", "5h", "5U", "5N", "5ms", "5SS", "5Sx", "5Sn", "5 ", "5d", "5µS",
+]
+
+
+def mutated_timeout(rng):
+    """a well-formed timeout damaged by one inserted / replaced byte"""
+    v = list(rng.choice(GOOD_TIMEOUTS + ["5S", "12345678S", "0000005S", "7n"]))
+    c = rng.choice(list("+- _.,xXeE\t0") + ["\u00a0", "S", "s"])
+    k = rng.randrange(0, len(v) + 1)
+    if rng.random() < 0.7:
+        v.insert(k, c)
+    elif v:
+        v[min(k, len(v) - 1)] = c
+    return "".join(v)
+
+
 GOOD_B64 = ["", "YQ", "YQ==", "YWI", "YWI=", "YWJj", "YWJjZA", "YWJjZA==", "+/+/", "AAAA"]
 BAD_B64 = ["!!!", "a", "ab=c", "a===", "=", "YQ=", "YWJjZ", "YQ==YQ==", "YW Jj", "YWJj=", "====", "Y*Jj"]
 CTS_OK = ["application/grpc", "application/grpc+proto", "application/grpc;x", "application/grpc+", "application/grpc;"]
@@ -127,7 +158,7 @@ def mutate(rng, fields, kinds):
             fields = fields + [("grpc-timeout", rng.choice(ZERO_TIMEOUTS))]
             ok = False
         elif m == 3:
-            fields = fields + [("grpc-timeout", rng.choice(BAD_TIMEOUTS))]
+            fields = fields + [("grpc-timeout", rng.choice(BAD_TIMEOUTS) if rng.random() < 0.6 else mutated_timeout(rng))]
             ok = False
         elif m == 4:
             fields = fields + [("grpc-timeout", rng.choice(BAD_TIMEOUTS)), ("grpc-timeout", rng.choice(GOOD_TIMEOUTS))]
@@ -334,6 +365,16 @@ def gen(rng, tier):
         n = rng.randrange(0, 14)
         s = bytes(rng.choice(b"ABab01+/=") if rng.random() < 0.93 else rng.randrange(256) for _ in range(n))
         ops.append("bin %s" % hx(s))
+    # decodeTimeout acceptance against the wire grammar: every string of length <= 4 over a sign/blank/digit/unit alphabet,
+    # the whole malformed family, and damaged well-formed values
+    talpha = [ord(c) for c in "05+- _.SxnH"]
+    tstrs = [()]
+    for L in range(1, 5):
+        tstrs += [t + (a,) for t in tstrs if len(t) == L - 1 for a in talpha]
+    ops += ["to %s" % hx(bytes(t)) for t in tstrs]
+    ops += ["to %s" % hx(t) for t in GOOD_TIMEOUTS + ZERO_TIMEOUTS + BAD_TIMEOUTS]
+    for _ in range({"quick": 1500, "thorough": 40000, "search": 15000}[tier]):
+        ops.append("to %s" % hx(mutated_timeout(rng)))
     base = b"application/grpc"
     for suffix in [b"", b"+", b";", b"+proto", b";q", b"x", b" ", b"/", b"+;"]:
         ops.append("ct %s" % hx(base + suffix))
